@@ -374,6 +374,10 @@ func (w *World) Do(method, path string, body any, hdr map[string]string) (r HTTP
 	req := httptest.NewRequest(method, path, bytes.NewReader(buf))
 	req.Header.Set("Content-Type", "application/json")
 	for k, v := range hdr {
+		if i := strings.Index(k, "#"); i > 0 {
+			req.Header.Add(k[:i], v) // "Name#2": a second field of the same name
+			continue
+		}
 		req.Header.Set(k, v)
 	}
 	rec := httptest.NewRecorder()
